@@ -136,4 +136,46 @@ example (cfg : Cfg T) (n : Nat) (r1 r2 : StepRec T) (h1 : r1.stateBefore = 5) (h
 
 end Faithful
 
+/-! ## Non-vacuity: a concrete machine that records a step
+
+A one-node graph over integer time (rounding = identity): scheduling, phase shift, the supervisor's step, the user's answer and the
+step's completion are enabled in this order and leave one recorded row — so the reachable states the machine-level theorems of
+C01, C03, C04, C06 and C13 quantify over include states with non-empty records. -/
+
+section NonVacuous
+
+instance : Rex.FloorDiv Int := ⟨fun a b => a / b⟩
+
+def intTime : TimeLike Int := { decLt := inferInstance, decLe := inferInstance, rnd := id }
+
+attribute [local instance] intTime
+
+def nc0 : NodeCfg Int :=
+  { rate := 1, phase := 0, advance := false, scheduling := 0, inputs := [], outputs := [], compDelay := fun _ => 0, initState := 5 }
+
+def cfg0 : Cfg Int := { nodes := [nc0], conns := [], sup := 0, f := fun sin => ⟨sin.state + 1, sin.state * 2⟩, userSteps := 3 }
+
+def runRules (cfg : Cfg Int) (s : MSt Int) : List Rule → MSt Int
+  | [] => s
+  | r :: rs => runRules cfg ((machine cfg).toNet.fire r s) rs
+
+def guardsOk (cfg : Cfg Int) (s : MSt Int) : List Rule → Bool
+  | [] => true
+  | r :: rs => ((machine cfg).toNet.step r (s.priv r) ((machine cfg).toNet.view r s)).isSome && guardsOk cfg ((machine cfg).toNet.fire r s) rs
+
+theorem run_of_guardsOk (cfg : Cfg Int) : ∀ (σ : List Rule) (s : MSt Int), guardsOk cfg s σ = true →
+    Rex.Conf.Run (machine cfg).toNet.sys s σ (runRules cfg s σ)
+  | [], s, _ => Rex.Conf.Run.nil s
+  | r :: rs, s, h => by
+    simp only [guardsOk, Bool.and_eq_true] at h
+    exact Rex.Conf.Run.cons h.1 (run_of_guardsOk cfg rs _ h.2)
+
+/-- a reachable state with a recorded step -/
+theorem C13_reachable_state_with_a_record :
+    ∃ s, Rex.Conf.Run (machine cfg0).toNet.sys (initState cfg0) [.sched 0, .shift 0, .step 0, .user, .step 0] s ∧
+      (stepsOf (s.q (.node 0 .record))).length = 1 ∧ (s.priv (.step 0)).state = 6 :=
+  ⟨_, run_of_guardsOk cfg0 _ _ (by decide), by decide, by decide⟩
+
+end NonVacuous
+
 end Rex.C13
